@@ -537,6 +537,10 @@ func engineOracles(c *Ctx, ec *eCase, recs []reqRec) {
 						c.Fail("C03", "nomatch-no-message", fmt.Sprintf("%s: no INCMP matches but the page does not start with the invalid-input message: %q", where, trunc(string(r.out), 60)))
 					}
 				} else if code, have := ec.nodes[t]; have && ended && !flagBit(prev.flags, 6) && ec.wf && terminalNode(ec, code) && r.f == "ok" {
+					// the target runs out of code without a HALT: that is the end of the session, whatever INCMP lines follow the matching one
+					if r.cont {
+						c.Fail("C20", "dead-end-not-terminating", fmt.Sprintf("%s: the first matching INCMP targets %q, whose code ends without HALT, but the request reports continue (session at %v)", where, t, r.path))
+					}
 					// the target ends the session: its own page is what the client gets, not the catch node's
 					if tp, okT := tblLookup(ec.tpls, r.lang, t); okT && !strings.Contains(tp, "{{") && ec.out == 0 {
 						if !strings.HasPrefix(string(r.out), tp) {
@@ -713,6 +717,27 @@ func engineOracles(c *Ctx, ec *eCase, recs []reqRec) {
 						if k < lastSignal && gi.Op == "MOUT" && !strings.Contains("\n"+string(r.out), "\n"+gi.B+sep) {
 							c.Fail("C06", "nonmatching-signal-acted", fmt.Sprintf("%s: no CATCH/CROAK of %v matches its flag, yet the page lacks the menu entry %q declared in the same code: %q", where, r.path, gi.B, trunc(string(r.out), 120)))
 						}
+					}
+				}
+			}
+		}
+		// ---- C05: what a LOAD or RELOAD function answered last in this request is the value the symbol holds afterwards (also an
+		// empty answer), as long as the symbol is still visible, the answer respects the declared size and no capacity is configured
+		if r.x == "ok" && r.state != "nostate" && ec.cache == 0 && ec.wf && !ec.opt("memcap") {
+			last := map[string]callRec{}
+			for _, cl := range r.calls {
+				if cl.answered {
+					last[cl.sym] = cl
+				}
+			}
+			for sym, cl := range last {
+				lim, known := sizes[sym]
+				if !known || cl.failed || cl.setsLang || (lim > 0 && len(cl.content) > int(lim)) || lim > 65535 {
+					continue
+				}
+				for li, fr := range r.caSnap.frames {
+					if v, have := fr[sym]; have && v != cl.content {
+						c.Fail("C05", "answer-not-stored", fmt.Sprintf("%s: the function for %q answered %q last in this request, but level %d holds %q", where, sym, trunc(cl.content, 40), li, trunc(v, 40)))
 					}
 				}
 			}
